@@ -12,7 +12,10 @@ U = units.BASE
 def make_cf(c, ap_unit, n_ap=None, prefix='cf'):
     M = c.int(prefix + '_n_models')
     c.assume(M >= 0)
-    attrs = dict(_model_names=c.array(prefix + '_names', (M,), 'int'), _wavelength=Quantity(c.real(prefix + '_cw'), U['micron']))
+    cw = c.real(prefix + '_cw')
+    # object invariant: `_wavelength` is only ever stored by the validating setter (validate_scalar, 'strictly-positive')
+    c.assume(cw > 0)
+    attrs = dict(_model_names=c.array(prefix + '_names', (M,), 'int'), _wavelength=Quantity(cw, U['micron']))
     if n_ap == 1:
         attrs['_apertures'] = None
         A = 1
